@@ -164,7 +164,14 @@ fn convert_answer(res: &R, display: bool) -> (Ans, RawAnswer) {
 
 /// Run a program through `Query`/`ResultIterator`, exactly the path `proto_vulcan_query!` users
 /// take, under all boundary monitors.
+fn trace(what: &str, prog: &Program) {
+    if std::env::var_os("PVMON_TRACE").is_some() {
+        eprintln!("TRACE {} {}", what, prog);
+    }
+}
+
 pub fn run_query(prog: &Program, cfg: &RunCfg) -> RunOut {
+    trace("run_query", prog);
     let mut out = RunOut::default();
     let _ = take_last_panic();
     let _ = verif::take_paths();
@@ -227,6 +234,7 @@ pub fn run_query(prog: &Program, cfg: &RunCfg) -> RunOut {
 
 /// Like `run_query` but keeps the answers produced before a budget overrun.
 pub fn run_query_prefix(prog: &Program, cfg: &RunCfg) -> RunOut {
+    trace("run_query_prefix", prog);
     let mut out = RunOut::default();
     let _ = take_last_panic();
     let _ = verif::take_paths();
@@ -300,6 +308,7 @@ pub struct StatesOut {
 /// Drive the solver by hand over the same query goal and keep every final state and every
 /// probe record (clones of the states the probes saw).
 pub fn run_states(prog: &Program, cfg: &RunCfg, with_reify: bool) -> StatesOut {
+    trace("run_states", prog);
     let _ = take_last_panic();
     let _ = verif::take_paths();
     let _ = take_probes();
